@@ -1,4 +1,4 @@
-import RsjProofs.EvalSafeSort
+import RsjProofs.EvalSafePure
 /-!
   C01 on the evaluator model: `step` on expressions (the cases without a loop invariant of their own)
   keeps every identifier in range.
@@ -60,6 +60,7 @@ theorem step_eval_simple2 (s : St) (e : Expr) (env : EId) (tail : Bool) (d : Nat
   have h5 := coerceToString_spec2 rec hrec
   have h7 := binaryOp_spec2 cfg rec hrec
   have h10 := sliceArg_spec2 rec hrec
+  have h12 := binaryOp3_spec2 cfg rec hrec
   have hr := rec_spec2 rec hrec
   qstart2
   cases e with
@@ -81,7 +82,16 @@ theorem step_eval_simple2 (s : St) (e : Expr) (env : EId) (tail : Bool) (d : Nat
   | superIndex => simp only [CoreShaped] at hc; ecase2
   | var => ecase2
   | if_ c t el => simp only [CoreShaped] at hc; ecase2
-  | binary op a b => simp only [CoreShaped] at hc; ecase2
+  | binary op a b =>
+    simp only [CoreShaped] at hc
+    unfold step
+    mvcgen [g0, g1, g2, g3, g4, g5, g6, g7, g8, h2, h3, h4, h5, h7, h10, h12, hr]
+    all_goals clear g0 g1 g2 g3 g4 g5 g6 g7 g8 h2 h3 h4 h5 h7 h10 h12 hr
+    all_goals vcprep2
+    all_goals first
+      | s2close
+      | (exfalso; exact compare_num (by assumption) (by assumption))
+      | (exfalso; exact equals_bool (by assumption) (by assumption))
   | unary => simp only [CoreShaped] at hc; ecase2
   | func => simp only [CoreShaped] at hc; ecase2
   | assert_ => simp only [CoreShaped] at hc; ecase2
@@ -147,7 +157,7 @@ theorem step_eval_builtin2 (s : St) (b : Builtin) (args : Exprs) (env : EId) (ta
       ⦃Q2 s (fun v st => ValOk st.thunks.size st.objs.size st.funcs.size v)⦄ := by
   have h1 := newThunk_spec2
   have h2 := checkDepth_spec2
-  have h3 := builtinCall2_spec2 cfg rec hrec
+  have h3 := builtinCall3_spec2 cfg rec hrec
   simp only [CoreShaped] at hc
   obtain ⟨har, hc2⟩ := hc
   have hmem := CoreShapedExprs_mem args hc2
